@@ -287,7 +287,8 @@ def main(chk):
     seen.add(sig)
     prog = beh['prog']
     lifted = [op.get('lift', 'none') for op in prog if op['k'] in ('E', 'G')]
-    body = dr.parse(prog)
+    ro = idx % 2 == 1      # rendering: identity map_variables as a read-only view of an unused collection
+    body = dr.parse([dict(op, lift='mapvars_ro') if (ro and op['k'] == 'E' and op.get('lift') == 'mapvars') else op for op in prog])
     plain_body = dr.parse([dict(op, lift='none') if op['k'] in ('E', 'G') else op for op in prog])
     kinds = dr.obs_kinds(body)
     by_name = all(op['n'] for op in prog if op['k'] == 'E' and op.get('lift', 'none') != 'none')
